@@ -14,6 +14,8 @@ MANIFEST_ENTRY = {
     "note": "Twisted's rule that a callback returning a Deferred pauses the chain until it fires is the trusted model (contracts.lib.fire_chain); foolscap eventually() is a recording stub. That directory edits built on modify() do not lose each other's changes additionally needs modify()'s read-modify-write to run inside one serialized operation, which is what the entry-point obligation states; only the first retry of _modify_and_retry is explored.",
     "technique": "contract-based deductive verification (pyvc VCs + z3) over a Deferred-chain model; entry points by AST check",
 }
+MANIFEST_ENTRY["text"] += " Bounded end-to-end stand-in (run-time contract, never counted as proved): contracts/grid_mutable.py issues 2..5 modify() calls and reads at once through two handles obtained from one client for the same cap on the real in-process grid and requires every update to take effect exactly once."
+MANIFEST_ENTRY["technique"] += "; plus bounded end-to-end run-time scenario contracts on an in-process grid of the real components (stand-in, labelled bounded)"
 EXPLANATION = "Queue discipline of the serializer Deferred."
 TRUSTED = ["twisted Deferred chain semantics as implemented by contracts.lib.fire_chain", "foolscap eventually() only schedules"]
 ASSUMPTIONS = []
@@ -282,6 +284,11 @@ class SameCapSameNode(Spec):
 
     def canary(self, I, a, out):
         return [("canary", z3.BoolVal(out.value[0] is not out.value[1]))]
+
+
+def extra_checks(rep, tier):
+    from contracts import grid_mutable
+    grid_mutable.grid_check(rep, tier, "C13")
 
 
 def contracts(tier):
